@@ -238,6 +238,20 @@ func TestKeepAliveAndExpiry(t *testing.T) {
 			Phases: []phase{{Kind: phEstablish}, {Kind: phBlockInit, N: 4}}, HandshakeMs: 400},
 		{Seed: 9, ServerProto: "socks5", BatchMode: "sendmmsg", ClientProto: "socks5", EndpointByName: true, NATTimeoutMs: 5000, NSessions: 2,
 			Phases: []phase{{Kind: phEstablish}, {Kind: phBlockInit, N: 3}}},
+		// (d) sessions whose datagrams all fail to pack must be evicted like any other idle session
+		{Seed: 10, ServerProto: "socks5", BatchMode: "no", ClientProto: "direct", NATTimeoutMs: 400, NSessions: 2,
+			Phases: []phase{{Kind: phEstablish}, {Kind: phPackFail, N: 2, Variant: "unresolvable"}, {Kind: phResend}}},
+		{Seed: 11, ServerProto: "none", BatchMode: "sendmmsg", ClientProto: "direct", NATTimeoutMs: 400, NSessions: 1,
+			Phases: []phase{{Kind: phPackFail, N: 2, Variant: "toobig"}, {Kind: phPackFail, N: 1, Variant: "unresolvable"}}},
+		{Seed: 12, ServerProto: "direct", BatchMode: "sendmmsg", ClientProto: "none", NATTimeoutMs: 400, NSessions: 1,
+			Phases: []phase{{Kind: phEstablish}, {Kind: phPackFail, N: 2, Variant: "toobig"}}},
+		{Seed: 13, ServerProto: "socks5", BatchMode: "no", ClientProto: "2022-blake3-aes-128-gcm", NATTimeoutMs: 400, NSessions: 1,
+			Phases: []phase{{Kind: phPackFail, N: 2, Variant: "toobig"}}},
+		// (e) steady traffic (gaps natTimeout/30, 2.5 x natTimeout) keeps the session; silence ends it
+		{Seed: 14, ServerProto: "socks5", BatchMode: "no", ClientProto: "direct", NATTimeoutMs: 500, NSessions: 3,
+			Phases: []phase{{Kind: phSteady}, {Kind: phPauseEvict}, {Kind: phResend}}},
+		{Seed: 15, ServerProto: "none", BatchMode: "sendmmsg", ClientProto: "direct", NATTimeoutMs: 400, NSessions: 2,
+			Phases: []phase{{Kind: phEstablish}, {Kind: phSteady}, {Kind: phPauseEvict}}},
 	}
 	for _, p := range plans {
 		before := recLife // checkPlan records into recLife; keep this test's own counters as well
